@@ -9,6 +9,7 @@ import (
 	"sync"
 	"time"
 
+	"go.sia.tech/core/consensus"
 	"go.sia.tech/core/types"
 	"verif/harness/chain"
 	"verif/harness/vlib"
@@ -74,7 +75,7 @@ func newLedgerStats() *ledgerStats {
 
 // blockScope families build their own transaction (or change the block); they run once per block.
 func blockScope(e ext) bool {
-	return e.Ver == 0 || e.Fam == "weight" || e.Fam == "empty" || e.Fam == "era" || e.Fam == "decoded"
+	return e.Ver == 0 || e.Fam == "weight" || e.Fam == "empty" || e.Fam == "era" || e.Fam == "decoded" || e.Fam == "confuse"
 }
 
 func keyMap(sim *chain.Sim) map[types.PublicKey]types.PrivateKey {
@@ -179,6 +180,12 @@ func mutateBlock(c *vlib.Ctx, st *ledgerStats, exts []ext, sim *chain.Sim, g *gu
 			return
 		}
 		for _, sealed := range []bool{false, true} {
+			st.mu.Lock()
+			skip = st.hung[e.class()]
+			st.mu.Unlock()
+			if skip {
+				return
+			}
 			m := &mctx{sim: sim, cs: a.Prev, child: child, ver: tg.ver, k: tg.k, abs: tg.abs, keys: keys, created: created}
 			m.b, m.bs = cloneBlock(a.Block, a.Supp)
 			var applied bool
@@ -252,25 +259,61 @@ func mutateBlock(c *vlib.Ctx, st *ledgerStats, exts []ext, sim *chain.Sim, g *gu
 					}
 				}
 				e := rep
-				key := "ledger/" + site + "/" + e.class()
+				cls := e.class()
+				if m.class != "" {
+					cls = m.class
+				}
+				key := "ledger/" + site + "/" + cls
 				how := "as is"
 				if sealed {
 					how = "re-signed and re-sealed"
 				}
+				// a failure of a transaction-level entry point: does the same mutant, sealed into its block, fail ValidateBlock too?
+				viaBlock := ""
+				if !lo.O.TimedOut && lo.Entry != "ValidateBlock" && lo.Entry != "ValidateOrphan" && lo.Entry != "ValidateHeader" && lo.Entry != "ApplyBlock" && lo.Entry != "RevertBlock" {
+					mb := *m
+					mb.b, mb.bs = cloneBlock(m.b, m.bs)
+					mb.reseal()
+					ob := g.run(func() error { return consensusValidateBlock(mb.cs, mb.b, mb.bs) })
+					switch {
+					case ob.Panic != "":
+						viaBlock = "ValidateBlock on the re-sealed block panics too: " + ob.Panic
+					case ob.TimedOut:
+						viaBlock = "ValidateBlock on the re-sealed block misses the deadline"
+					default:
+						viaBlock = "ValidateBlock on the re-sealed block returns"
+					}
+					how += "; " + viaBlock
+				}
 				c.Violation(key, fmt.Sprintf("%s %s on a valid block (height %d, %s era, transaction %s) changed by %v, %s", lo.Entry, kind, child, era, shape, e, how),
 					map[string]any{"entry": lo.Entry, "extreme": e, "sealed": sealed, "panic": lo.O.Panic, "stack": lo.O.Stack, "config": cfg, "behaviour": beh.Steps[:step+1],
-						"target": map[string]any{"ver": m.ver, "index": m.k}, "block": mustJSON(m.b), "supplement": mustJSON(m.bs), "state": mustJSON(m.cs), "accepted_before_failure": lo.Accepted})
+						"target": map[string]any{"ver": m.ver, "index": m.k}, "block": mustJSON(m.b), "supplement": mustJSON(m.bs), "state": mustJSON(m.cs), "accepted_before_failure": lo.Accepted, "through_validate_block": viaBlock})
 			}
 			if len(local.samples) < 1 && lo != nil && lo.Accepted && e.Fam != "header" {
 				local.samples = append(local.samples, map[string]any{"extreme": e.String(), "sealed": sealed, "transaction": shape, "height": child, "outcome": "accepted, applied, reverted"})
 			}
 		}
 	}
+	// sampling: the two big families (pairs of currency members, covered-field lists) get 1/stride of their applicable
+	// entries per block, rotating with the block; every other entry runs on every block it applies to
 	seq := 0
+	take := func(e ext) bool {
+		s := 1
+		switch e.Fam {
+		case "cur2":
+			s = stride
+		case "covered":
+			s = (stride + 2) / 3
+		}
+		seq++
+		return seq%s == phase%s
+	}
 	for ei, e := range exts {
+		if e.Fam == "lifecycle" {
+			continue // scenarios of their own (runLifecycle)
+		}
 		if blockScope(e) {
-			seq++
-			if seq%stride == phase%stride {
+			if take(e) {
 				run(ei, e, target{})
 			}
 			continue
@@ -289,15 +332,13 @@ func mutateBlock(c *vlib.Ctx, st *ledgerStats, exts []ext, sim *chain.Sim, g *gu
 				continue
 			}
 			hit = true
-			seq++
-			if seq%stride == phase%stride {
+			if take(e) {
 				run(ei, e, tg)
 			}
 		}
 		// a block without v1 transactions still gets the entries that build their own (arbitrary data)
 		if !hit && e.Fam == "arb" && e.Ver == 1 && n1 == 0 && child < a.Prev.Network.HardforkV2.RequireHeight {
-			seq++
-			if seq%stride == phase%stride {
+			if take(e) {
 				run(ei, e, target{})
 			}
 		}
@@ -354,7 +395,7 @@ func runLedger(c *vlib.Ctx, exts []ext) (*ledgerStats, chain.RunStats) {
 		{"v2only", []string{"form2", "rev2", "res2", "renew2"}, c.Pick(6, 60)},
 	}
 	// every block gets 1/stride of its applicable entries; the phase rotates so that all entries are used across blocks
-	stride := c.Pick(8, 2)
+	stride := c.Pick(6, 2)
 	var wg sync.WaitGroup
 	var tmu sync.Mutex
 	for _, rn := range runs {
@@ -400,8 +441,24 @@ func runLedger(c *vlib.Ctx, exts []ext) (*ledgerStats, chain.RunStats) {
 			tmu.Unlock()
 		}(rn)
 	}
+	wg.Add(1)
+	go func() {
+		defer wg.Done()
+		runLifecycle(c, st, exts)
+		for ei, e := range exts {
+			if e.Fam == "lifecycle" {
+				st.mu.Lock()
+				st.entriesHit[ei] = true
+				st.mu.Unlock()
+			}
+		}
+	}()
 	wg.Wait()
 	return st, total
+}
+
+func consensusValidateBlock(cs consensus.State, b types.Block, bs consensus.V1BlockSupplement) error {
+	return consensus.ValidateBlock(cs, b, bs)
 }
 
 var _ = bytes.Equal
